@@ -68,9 +68,15 @@ func c04P2PConfig(base *filler.Config) *filler.Config {
 	cfg.Rules["dmsg.Vote.Command"] = filler.Rule{Skip: true}
 	cfg.Rules["p2p.NetAddress.IP"] = filler.Rule{FixLen: 16}
 	cfg.Rules["msg.FilterLoad.HashFuncs"] = filler.Rule{MaxVal: 50}
-	cfg.Rules["msg.FilterLoad.Filter"] = filler.Rule{MaxLen: 300}
-	cfg.Rules["msg.FilterAdd.Data"] = filler.Rule{MaxLen: 520}
-	cfg.Rules["msg.TxFilterLoad.Data"] = filler.Rule{MaxLen: 300}
+	cfg.Rules["msg.FilterLoad.Filter"] = filler.Rule{MaxLen: 300, Cap: 36000} // MaxFilterLoadFilterSize
+	cfg.Rules["msg.FilterAdd.Data"] = filler.Rule{MaxLen: 520}                // MaxFilterAddDataSize
+	cfg.Rules["msg.TxFilterLoad.Data"] = filler.Rule{MaxLen: 300, Cap: 50000} // MaxTxFilterLoadDataSize
+	// caps enforced by the messages' own Serialize/Deserialize
+	cfg.Rules["msg.MerkleBlock.Flags"] = filler.Rule{Cap: 1250}   // pact.MaxTxPerBlock / 8
+	cfg.Rules["msg.MerkleBlock.Hashes"] = filler.Rule{Cap: 10000} // pact.MaxTxPerBlock
+	cfg.Rules["msg.Inv.InvList"] = filler.Rule{Cap: 50000}        // MaxInvPerMsg
+	cfg.Rules["msg.GetBlocks.Locator"] = filler.Rule{Cap: 500}    // MaxBlockLocatorsPerMsg
+	cfg.Rules["msg.Addr.AddrList"] = filler.Rule{Cap: 1000}       // MaxAddrPerMsg
 	cfg.Rules["msg.MerkleBlock.Header"] = filler.Rule{Build: func(f *filler.Filler, v reflect.Value, path string) {
 		h := &common2.Header{}
 		n := len(f.Leaves)
